@@ -432,6 +432,7 @@ def search(ctx, rng, budget):
             n_eval += 3
             distinct.add(('gauss', repr(axes), gn % 2, gm % 2, bg > 0))
             e = [mu[0] if sel_g[0] else gn // 2, mu[1] if sel_g[1] else gm // 2]
+            kpow = int(rng.integers(-400, 401))
             try:
                 o = [float(v) for v in find_origin(G, method='gaussian', axes=axes)]
                 good = err(o, e) <= TOL['gaussian']
@@ -441,12 +442,10 @@ def search(ctx, rng, budget):
                 j = np.arange(gm)[None, :]
                 o3 = find_origin(G * 3.7, method='gaussian', axes=axes)
                 good_scale = err(o3, o) <= TOL['gaussian']
-                kpow = int(rng.integers(-400, 401))
                 o5 = find_origin(G * 2.0 ** kpow, method='gaussian', axes=axes)
                 good_pow = all(float(o5[k_]) == float(o[k_]) for k_ in (0, 1)) and err(o5, e) <= TOL['gaussian']
             except Exception:       # noqa
                 good = good_scale = good_pow = False
-                kpow = 0
             n_eval += 1
             distinct.add(('pow2', 'gaussian', repr(axes), int(np.sign(kpow)), abs(kpow) > 100, gn >= 400))
             if not good_pow:
